@@ -720,6 +720,8 @@ HEADER_UTILS = """/-
   GENERATED by harness/py2lean.py from the source text of /repo on every check run — do not edit.
   `partition_by_sum` (utils.py) over numpy primitives modelled as list functions (cumsum, arange, searchsorted(side="right"),
   unique(...).size); Props/C11.lean proves it equal to the model's `partitionBySum`.
+  `variance_to_weights` (utils.py): the per-component loop body read element-wise (nan_to_num, ones_like, mask, masked min,
+  masked assignment); Props/C10.lean proves it equal to the model's `varianceToWeights`.
 -/
 import VerdeModel.Model.CV
 namespace Verde.Gen
@@ -734,6 +736,7 @@ def generate_utils():
     parts = [
         translate_typed("verde/utils.py", "partition_by_sum", "partitionBySum",
                         [("array", "array", "natlist"), ("parts", "parts", "nat")], ["natlist"]),
+        translate_v2w(),
     ]
     return HEADER_UTILS + "\n".join(parts) + "\nend Verde.Gen\n"
 
@@ -771,3 +774,141 @@ def _regen(gen_fn, gen_path, snap_path, write=True):
 
 def main_coords(write=True):
     return _regen(generate_coords, GEN_COORDS, SNAP_COORDS, write)
+
+
+# ============================================================================= array-elementwise translation (variance_to_weights)
+class SymA:
+    """Symbolic execution of a loop body over ONE numpy array: every array value is (elem, kind, mask) where `elem` is a Lean
+    expression in the element variable `x` of the base list `base`, kind is 'num' | 'prop', and mask (or None) says the value only
+    exists on the sub-array selected by that boolean array.  Scalars are Lean expressions.  Supports: np.nan_to_num,
+    np.atleast_1d, np.ones_like, comparison with a scalar, np.any, boolean-mask selection a[m], .min() of a selection,
+    scalar / selection, masked assignment w[m] = selection, `if np.any(m):` without else."""
+
+    def __init__(self, base, elem0, scalars):
+        self.base = base
+        self.arr = {}
+        self.sc = dict(scalars)
+        self.elem0 = elem0
+
+    def val(self, n):
+        if isinstance(n, ast.Name):
+            if n.id in self.arr:
+                return ("arr",) + self.arr[n.id]
+            if n.id in self.sc:
+                return ("sc", self.sc[n.id])
+            _fail(n, "unbound name")
+        if isinstance(n, ast.Constant) and isinstance(n.value, (int, float)) and not isinstance(n.value, bool):
+            return ("sc", str(n.value) if isinstance(n.value, int) else _fail(n, "float literal"))
+        if isinstance(n, ast.Call) and isinstance(n.func, ast.Attribute):
+            f = n.func
+            if isinstance(f.value, ast.Name) and f.value.id == "np":
+                if f.attr == "atleast_1d" and len(n.args) == 1:
+                    return self.val(n.args[0])
+                if f.attr == "nan_to_num" and len(n.args) == 1 and not n.keywords:
+                    v = self.val(n.args[0])
+                    if v[0] == "arr" and v[2] == "optnum" and v[3] is None:
+                        return ("arr", f"({v[1]}.getD 0)", "num", None)
+                if f.attr == "ones_like" and len(n.args) == 1 and {k.arg for k in n.keywords} <= {"dtype"}:
+                    v = self.val(n.args[0])
+                    if v[0] == "arr" and v[3] is None:
+                        return ("arr", "1", "num", None)
+                if f.attr == "any" and len(n.args) == 1:
+                    v = self.val(n.args[0])
+                    if v[0] == "arr" and v[2] == "prop" and v[3] is None:
+                        return ("sc", f"({self.base}.any (fun x => decide {v[1]}))")
+            if f.attr == "min" and not n.args and not n.keywords:
+                v = self.val(f.value)
+                if v[0] == "arr" and v[2] == "num" and v[3] is not None:
+                    return ("sc", f"((listMin (({self.base}.filter (fun x => decide {v[3]})).map (fun x => {v[1]}))).getD 0)")
+            _fail(n, "unsupported call")
+        if isinstance(n, ast.Compare) and len(n.ops) == 1 and isinstance(n.ops[0], (ast.Gt, ast.Lt, ast.GtE, ast.LtE)):
+            a, b = self.val(n.left), self.val(n.comparators[0])
+            sym = {ast.Gt: ">", ast.Lt: "<", ast.GtE: "≥", ast.LtE: "≤"}[type(n.ops[0])]
+            if a[0] == "arr" and a[2] == "num" and a[3] is None and b[0] == "sc":
+                return ("arr", f"({a[1]} {sym} {b[1]})", "prop", None)
+        if isinstance(n, ast.Subscript) and isinstance(n.slice, ast.Name) and n.slice.id in self.arr:
+            a, m = self.val(n.value), self.arr[n.slice.id]
+            if a[0] == "arr" and a[3] is None and m[1] == "prop" and m[2] is None:
+                return ("arr", a[1], a[2], m[0])
+        if isinstance(n, ast.BinOp) and isinstance(n.op, ast.Div):
+            a, b = self.val(n.left), self.val(n.right)
+            if a[0] == "sc" and b[0] == "arr" and b[2] == "num":
+                return ("arr", f"({a[1]} / {b[1]})", "num", b[3])
+        _fail(n, "unsupported array expression")
+
+    def run(self, body):
+        for st in body:
+            if isinstance(st, ast.Assign) and len(st.targets) == 1:
+                t = st.targets[0]
+                if isinstance(t, ast.Name):
+                    v = self.val(st.value)
+                    if v[0] == "arr":
+                        self.arr[t.id] = v[1:]
+                        self.sc.pop(t.id, None)
+                    else:
+                        self.sc[t.id] = v[1]
+                        self.arr.pop(t.id, None)
+                    continue
+                if isinstance(t, ast.Subscript) and isinstance(t.value, ast.Name) and isinstance(t.slice, ast.Name) \
+                        and t.value.id in self.arr and t.slice.id in self.arr:
+                    w, m, r = self.arr[t.value.id], self.arr[t.slice.id], self.val(st.value)
+                    if w[2] is None and m[1] == "prop" and m[2] is None and r[0] == "arr" and r[3] == m[0]:
+                        self.arr[t.value.id] = (f"(if {m[0]} then {r[1]} else {w[0]})", w[1], None)
+                        continue
+                _fail(st, "unsupported array assignment")
+            if isinstance(st, ast.If) and not st.orelse:
+                c = self.val(st.test)
+                if c[0] != "sc":
+                    _fail(st, "unsupported condition")
+                sub = SymA(self.base, self.elem0, self.sc)
+                sub.arr = dict(self.arr)
+                sub.run(st.body)
+                for k, v in sub.arr.items():
+                    old = self.arr.get(k)
+                    if old is not None and old != v and v[2] is None and old[2] is None:
+                        self.arr[k] = (f"(if {c[1]} = true then {v[0]} else {old[0]})", v[1], None)
+                continue
+            _fail(st, "unsupported statement in array loop")
+
+
+def translate_v2w():
+    """variance_to_weights: the body of `for var in variance:` as a function of one component (NaN = none) and the tolerance,
+    plus the loop/return skeleton (one output array per component, a bare array when there is one)."""
+    path = "verde/utils.py"
+    src = open(os.path.join(REPO, path)).read()
+    fn = find_func(ast.parse(src), "variance_to_weights")
+    body = [st for st in fn.body if not (isinstance(st, ast.Expr) and isinstance(st.value, ast.Constant))]
+    # skeleton: variance = check_data(variance); weights = []; for var in variance: ...; weights.append(w); if len(weights) == 1: return weights[0]; return tuple(weights)
+    ok = (len(body) == 5 and isinstance(body[0], ast.Assign) and isinstance(body[0].value, ast.Call)
+          and getattr(body[0].value.func, "id", None) == "check_data"
+          and isinstance(body[1], ast.Assign) and isinstance(body[1].value, ast.List) and not body[1].value.elts
+          and isinstance(body[2], ast.For) and isinstance(body[2].target, ast.Name) and isinstance(body[2].iter, ast.Name)
+          and body[2].iter.id == body[0].targets[0].id and not body[2].orelse
+          and isinstance(body[3], ast.If) and isinstance(body[4], ast.Return))
+    if not ok:
+        raise Untranslatable("variance_to_weights: unexpected statement skeleton")
+    acc = body[1].targets[0].id
+    loop = body[2]
+    last = loop.body[-1]
+    if not (isinstance(last, ast.Expr) and isinstance(last.value, ast.Call) and isinstance(last.value.func, ast.Attribute)
+            and last.value.func.attr == "append" and getattr(last.value.func.value, "id", None) == acc
+            and len(last.value.args) == 1 and isinstance(last.value.args[0], ast.Name)):
+        raise Untranslatable("variance_to_weights: loop does not end with weights.append(<name>)")
+    # return skeleton: `if len(weights) == 1: return weights[0]` / `return tuple(weights)`
+    r1, r2 = body[3], body[4]
+    if not (isinstance(r1.test, ast.Compare) and ast.unparse(r1.test) == f"len({acc}) == 1" and ast.unparse(r1.body[0]) == f"return {acc}[0]"
+            and ast.unparse(r2) == f"return tuple({acc})"):
+        raise Untranslatable("variance_to_weights: unexpected return skeleton")
+    s = SymA("var", "x", {"tol": "tol"})
+    s.arr[loop.target.id] = ("x", "optnum", None)
+    s.run(loop.body[:-1])
+    out = s.arr[last.value.args[0].id]
+    if out[1] != "num" or out[2] is not None:
+        raise Untranslatable("variance_to_weights: appended value is not a full numeric array")
+    seg = ast.get_source_segment(src, fn)
+    sha = hashlib.sha256(seg.encode()).hexdigest()[:16]
+    return (f"/-- translated from {path}:{fn.lineno}-{fn.end_lineno} (variance_to_weights: body of the per-component loop), sha256 {sha} -/\n"
+            f"def varianceToWeightsComp (var : List (Option Rat)) (tol : Rat) : List Rat :=\n  var.map (fun x => {out[0]})\n\n"
+            f"/-- the loop and return skeleton: one output array per input component, in order (a bare array when there is one) -/\n"
+            f"def varianceToWeights (variance : List (List (Option Rat))) (tol : Rat) : List (List Rat) :=\n"
+            f"  variance.map (fun var => varianceToWeightsComp var tol)\n")
